@@ -1,3 +1,4 @@
+import RavenModel.Model.Lsub
 import RavenModel.Model.ListMatch
 /-! # C18 — LIST/LSUB wildcard matching follows RFC 3501 and stays polynomial
 
@@ -41,5 +42,21 @@ example : Matches (b!"a/%/*x") (b!"a/bc/d/ex") :=
 example : ¬ Matches (b!"a/%") (b!"a/b/c") :=
   fun h => absurd ((dpMatch_iff _ _).mpr h) (by decide)
 example : matchWildcard (b!"inbox") (b!"InBoX") = true := by decide
+
+/-! ## LSUB: subscribed matches and implied parents (`Model/Lsub`) -/
+
+/-- C18.6  the names `HandleLsub` announces as `\Noselect` are exactly the implied parents of RFC 3501 6.3.9: for a pattern
+with `%`, the names that are not subscribed themselves, match reference + pattern, and are a proper ancestor (a leading run
+of hierarchy components) of a subscribed name — at whatever depth below whatever subscribed ancestor. -/
+theorem lsub_implied_exact (subs : List Bytes) (ref pat p : Bytes) :
+    p ∈ Lsub.implied subs ref pat ↔
+      pat.contains Lsub.pct = true ∧ p ∉ subs ∧ MatchesCI (canonical ref pat) p ∧ ∃ m ∈ subs, Lsub.ProperAncestor p m :=
+  Lsub.mem_implied subs ref pat p
+
+-- non-vacuity: `w` and `w/p/q/r` subscribed, the two levels between them not: `w/%` shows `w/p`, `w/%/%` shows `w/p/q`
+example : Lsub.implied [(b!"w"), (b!"w/p/q/r")] [] (b!"w/%") = [(b!"w/p")] ∧
+    Lsub.implied [(b!"w"), (b!"w/p/q/r")] [] (b!"w/%/%") = [(b!"w/p/q")] ∧
+    Lsub.implied [(b!"w"), (b!"w/p/q/r")] (b!"w/p/") (b!"%") = [(b!"w/p/q")] ∧
+    Lsub.implied [(b!"w"), (b!"w/p/q/r")] [] (b!"*") = [] := by decide
 
 end Raven.Props.C18
